@@ -78,6 +78,18 @@ def check_case(case):
         return res
     else:  # mux without a live input, next to a live shared source
         spec = mux_spec([tuple(x) for x in case["inputs"]], case["pal"], case["rs_list"], below="deep", mux_pc=case.get("mux_pc"), pol=case.get("pol", 1))
+        if case.get("ph3"):
+            # three phases: the first input lives in phase a only (dead in b AND c, a live second input carries the mux there) while ONE element below the
+            # mux has its own active list -- its sleep / off state in each phase is its own, whatever the other phases looked like
+            from ..sysmodel import PH3
+            spec["phases"] = dict(PH3)
+            who, pcl = case["ph3"]
+            for c in spec["comps"]:
+                if c["n"] == who:
+                    c["pc"] = list(pcl)
+                    if c["k"] in ("ILoad", "PLoad", "RLoad"):   # loads take a table: their own value in the listed phases, asleep (iis / pwrs) in the others
+                        val = c["a"][{"ILoad": "ii", "PLoad": "pwr", "RLoad": "rs"}[c["k"]]]
+                        c["pc"] = {ph: val * (1.0 + 0.25 * j) for j, ph in enumerate(pcl)}
     if case.get("move"):
         # analysis first, then a leaf load is moved (delete + add, same counts, index re-used) under the element that sleeps in one phase
         from ..sysmodel import build, observe, move_leaf, LOADS
@@ -275,6 +287,13 @@ def gen_cases(tier):
                     yield dict(fam="mux", inputs=[list(x) for x in inputs], pal=pal, rs_list=False, pol=-1)
 
 
+        for first in (("S", "inact"), ("SC", "inact-src"), ("SC", "inact-reg"), ("SH", "inact-reg")):
+            for second in (("S", "live"), ("SC", "live"), ("SH", "live"), ("S", "inact")):
+                for who in ("M", "LM", "PB", "CB", "OB"):
+                    for pcl in (["a", "b"], ["a", "c"], ["b"], ["c"], ["b", "c"]):
+                        yield dict(fam="mux", inputs=[list(first), list(second)], pal=pal, rs_list=True, ph3=[who, pcl])
+
+
 def replay(doc):
     r = check_case(doc["case"])
     for sig, detail in r.viol:
@@ -291,5 +310,6 @@ def main(tier):
         rule="E1: every tree of the mid alphabet n<=3 (4 thorough) and every chain of the deep alphabet to depth 5 (6) with (a) the source at 0 V, "
              "(b) each source/converter/regulator/switch/mux position in turn active in one phase only, (c) a dead source beside a live one, "
              "(d) a PMux all of whose 1..3 inputs are dead for each cause, and 2-/3-input muxes that themselves sleep in one phase over every live/dead input pattern. Oracle: exact zeros in every row whose Vin is 0, Iin==iis and P==L==iis*|Vin|, Vout==0 "
+             "(e) three phases: first mux input live in one phase only, the mux or one element below it active in each 1-/2-subset of the phases (loads with per-phase tables). "
              "for the inactive element, C01 row laws for all remaining rows. non-trivial = >=2 dead rows and >=1 live or sleeping row in the same table.",
         assumptions=["one dead cause at a time (combinations are covered by C05/C06)", "palettes", "node bounds"])
